@@ -59,7 +59,7 @@ ASSUMPTIONS = [
 
 
 def budget(tier):
-    return int(os.environ.get("VERIF_BUDGET", 0)) or {"quick": 1000, "thorough": 12000}[tier]
+    return int(os.environ.get("VERIF_BUDGET", 0)) or {"quick": 800, "thorough": 12000}[tier]
 
 
 # ================================================================== case generation
@@ -280,13 +280,15 @@ def _frame_of_etas(model, rng):
                         index=pd.Index(ids, name="ID"))
 
 
-def _inits_within_bounds(model, rng, names):
+def _inits_within_bounds(model, rng, names, sometimes_outside=False):
     out = {}
     for nme in names:
         p = model.parameters[nme]
         lo = p.lower if p.lower > -1e6 else p.init - 1
         hi = p.upper if p.upper < 1e6 else p.init + 1
         out[nme] = round(lo + (hi - lo) * rng.uniform(0.2, 0.8), 6)
+        if sometimes_outside and p.lower > -1e6 and rng.random() < 0.15:
+            out[nme] = p.lower - 1.0        # inadmissible: the code must refuse
     return out
 
 
@@ -317,8 +319,9 @@ def _by_name(fn, pname, ann, rng, model, pools):
         "parameters": lambda: ({p: rng.random() < 0.5 for p in _subset(rng, P["params"])} if fn == "fix_or_unfix_parameters"
                                else _subset(rng, P["params"]) if "list" in ann or "Iterable" in ann else None),
         "parameter_names": lambda: rng.choice([_subset(rng, P["params"]), rng.choice(P["params"])]),
-        "inits": lambda: _inits_within_bounds(model, rng, _subset(rng, P["params"])),
-        "bounds": lambda: {p: (model.parameters[p].init - 0.5 if fn == "set_lower_bounds" else model.parameters[p].init + 0.5)
+        "inits": lambda: _inits_within_bounds(model, rng, _subset(rng, P["params"]), sometimes_outside=True),
+        # mostly admissible (below / above the initial estimate), sometimes not: the code must then refuse
+        "bounds": lambda: {p: (model.parameters[p].init + (-0.5 if (fn == "set_lower_bounds") == (rng.random() < 0.8) else 0.5))
                            for p in _subset(rng, P["params"])},
         "rv": lambda: rng.choice(P["etas"] + P["eps"]),
         "rvs": lambda: _subset(rng, P["etas"]),
@@ -498,7 +501,7 @@ def _describe(kwargs):
 
 # ================================================================== well-formedness of a result
 
-def wellformed(model, arg_model=None):
+def wellformed(model, arg_model=None, fn_name=""):
     """The well-formedness clauses of the property statement; returns list of (cls, what)."""
     bad = []
     arg_columns = set(arg_model.datainfo.names) if arg_model is not None else set()
@@ -510,7 +513,7 @@ def wellformed(model, arg_model=None):
         bad.append(("wf-duplicate-rv-names", f"duplicate random variable names {rvn}"))
     for p in model.parameters:
         if not (p.lower <= p.init <= p.upper) or (isinstance(p.init, float) and math.isnan(p.init)):
-            bad.append(("wf-init-outside-bounds", f"parameter {p.name}: init {p.init} not within [{p.lower}, {p.upper}]"))
+            bad.append(("wf-init-outside-bounds:" + fn_name, f"parameter {p.name}: init {p.init} not within [{p.lower}, {p.upper}]"))
             break
     allowed = set(names) | set(rvn) | set(model.datainfo.names)
     for dist in model.random_variables:
@@ -840,7 +843,7 @@ def run_call(case, drv):
             models += [x for x in r if isinstance(x, Model)]
     for rm in models[:2]:
         tags.append("result:Model")
-        for cls, what in wellformed(rm, model):
+        for cls, what in wellformed(rm, model, fn):
             mon.append({"cls": cls, "what": f"{fn}(model, {json.dumps(_describe(kwargs), default=str)[:160]}) returned a model with: {what}"})
         # copying returns an equal object
         try:
